@@ -319,6 +319,7 @@ def parse_out(path):
             if algo == "ANY":
                 for a in ("LR", "GLR"):
                     cur.results.setdefault((a, i), w[3])
+                cur.results.setdefault(("LRS", 0), w[3])
             else:
                 cur.results[(algo, i)] = w[3]
         elif line.startswith("MATCH "):
